@@ -212,6 +212,35 @@ func (m *mon) c01() {
 			}
 		}
 	}
+	// the scenario itself is stuck (typically in its final WaitUntilFinished): nothing can move, the
+	// worker is running with a free slot and its event loop sleeps at its idle point, yet an accepted
+	// job waits in a queue of a single-worker episode — it will never be invoked
+	if m.s.Hang && !m.s.Livelock && len(m.s.Panics) == 0 && running && len(m.e.adapters) == 0 {
+		limit := m.e.conc
+		if n := len(m.concAt); n > 0 {
+			limit = m.concAt[n-1].v
+		}
+		inflight := 0
+		for _, s := range m.e.subs {
+			if len(s.tEnter) > len(s.tExit) {
+				inflight++
+			}
+		}
+		loopIdle := false
+		for _, p := range m.s.Parked() {
+			if !p.Client && strings.HasPrefix(siteName(p.Site), "worker.goEventLoop/range signal") {
+				loopIdle = true
+			}
+		}
+		if loopIdle && inflight < limit {
+			for _, s := range m.e.subs {
+				if s.accepted && len(s.tEnter) == 0 && !m.cancelledBeforeStart(s) && s.purgedAt < 0 {
+					m.add("C01", "never-ran", "accepted job d%d (q%d) waits in its queue for ever: nothing can move, the worker is running with %d of %d slots in use and its event loop is asleep", s.data, s.q, inflight, limit)
+					break
+				}
+			}
+		}
+	}
 }
 
 type interval struct{ a, b, dispatch int }
